@@ -135,6 +135,9 @@ type memStream struct {
 	onSend       func(n int)   // hook called before the n-th SendMsg
 	reqs         []uint32      // ids of the REQ packets sent through this end
 	latency      bool          // SendMsg returns only after everything else had a chance to react to the packet
+	sendBusy     bool          // a SendMsg is in flight on this end
+	recvBusy     bool          // a RecvMsg is in flight on this end
+	overlap      bool          // two SendMsg (or two RecvMsg) calls were in flight at once
 }
 
 func newStreamPair(ctx context.Context, capacity int) (*memStream, *memStream) {
@@ -155,6 +158,11 @@ func copyPacket(p *types.Packet) *types.Packet {
 }
 
 func (s *memStream) SendMsg(m interface{}) error {
+	if s.sendBusy {
+		s.overlap = true
+	}
+	s.sendBusy = true
+	defer func() { s.sendBusy = false }()
 	s.sends++
 	if s.onSend != nil {
 		s.onSend(s.sends)
@@ -193,6 +201,11 @@ func (s *memStream) Break() {
 }
 
 func (s *memStream) RecvMsg(m interface{}) error {
+	if s.recvBusy {
+		s.overlap = true
+	}
+	s.recvBusy = true
+	defer func() { s.recvBusy = false }()
 	s.recvs++
 	if s.recvs == s.recvErrAt {
 		return errInjected
